@@ -255,7 +255,7 @@ def run_case(case, scratch_root):
             before = snapshot(root, shas)
             r = run_make(root, scfg, plan, scratch, target=step.get("target") or case.get("target"))
             shas |= payload_shas(r["events"])
-            per_key, order = ab.abstract_events(r["events"])
+            per_key, order = ab.abstract_events(r["events"], failure_propagated=(r["outcome"] == "exc" and cfg["proc"] == "single_thread"))
             after = snapshot(root, shas)
             obs = observe(root, cfg, orc)
             recs.append({"plan": [[list(s), a] for s, a in plan.items()], "crash_at": scfg.get("crash_at"),
@@ -313,7 +313,7 @@ def clean_trace(cfg, scratch_root):
     try:
         r = run_make(root, cfg, {}, scratch)
         shas = payload_shas(r["events"])
-        per_key, order = ab.abstract_events(r["events"])
+        per_key, order = ab.abstract_events(r["events"], failure_propagated=(r["outcome"] == "exc" and cfg["proc"] == "single_thread"))
         after = snapshot(root, shas)
         orc = oracle_rows(cfg)
         obs = observe(root, cfg, orc)
